@@ -211,6 +211,8 @@ func c07Datasets() [][]c07Group {
 		{{"a", n(0, 0, 3), n(1, 1, 1)}, {"b", n(5, 1), n(2, 2)}, {"c", n(1, 5), n(0, 1)}, {"d", n(2.5, 2.5), n(3, 3)}},
 		// sort keys closer than 1 to each other and on both sides of zero (arrival order differs from every sorted order)
 		{{"c", n(2.4), n(1)}, {"a", n(2.7), n(1)}, {"e", n(-0.4), n(1)}, {"b", n(2.1), n(1)}, {"d", n(0.4), n(1)}},
+		// text keys that read as numbers: ORDER BY k is the order of texts ("10" < "100" < "1e1" < "9")
+		{{"9", n(1, 1), n(1, 1)}, {"100", n(4), n(1)}, {"10", n(2, 1), n(1, 1)}, {"1e1", n(4, 4), n(1, 1)}},
 	}
 }
 
